@@ -55,6 +55,10 @@ func (f *MultipleValueProg1) Call(s *slip.Scope, args slip.List, depth int) (res
 		ff = slip.ListToFunc(s, list, d2)
 	}
 	result = s.Eval(ff, d2)
+	switch result.(type) {
+	case *slip.ReturnResult, *GoTo:
+		return
+	}
 	for _, arg := range args[1:] {
 		if list, ok := arg.(slip.List); ok {
 			arg = slip.ListToFunc(s, list, d2)
